@@ -375,6 +375,12 @@ inline bool do_decode_resize(std::vector<T>& v, const uint8_t*& pos, const uint8
     {
         return false;
     }
+    /// every element occupies at least one byte of the remaining input
+    enum { min_size = (codec_traits<T>::size > 0) ? int(codec_traits<T>::size) : 1 };
+    if (n > size_t(end - pos) / min_size)
+    {
+        return false;
+    }
     v.resize(n);
     return true;
 }
